@@ -52,6 +52,15 @@ Theorem prune_below_opaque_sound_wms :
     view (result_image (wms_map false false fetch n o req)).
 Proof. exact wms_prune. Qed.
 
+(* the repaired WMSServer.map collects all layers, applies the authorisation and prunes afterwards (two passes,
+   wms_map_auth); without an authorize callback it is the one-pass selection the pruning theorem is stated for,
+   for every request with distinct selected layer names *)
+Theorem two_pass_selection_without_auth :
+  forall prune combine fetch n o req,
+    NoDup (req_keys req) ->
+    wms_map_auth prune combine (fun _ => 0) fetch n o req = wms_map prune combine fetch n o req.
+Proof. exact wms_map_auth_no_auth. Qed.
+
 (* what WMSSource.is_opaque = true guarantees: the source answers (inside resolution range and coverage),
    is not declared transparent and is not faded by merge *)
 Theorem wms_source_is_opaque_facts :
